@@ -351,6 +351,7 @@ func checkC08(p *Prog, r *Report) {
 	r.rule("R-M", "Mark discipline (PAN-OS, NSX): the marks needed / nameOnDevice decide which objects are transferred before the rules that reference them and under which name a rule refers to a group; every store into such a mark lies at a function+site whose controlling conditions are audited rows of tables/guards.tsv (compared by R08.g).")
 	ruleMarkDiscipline(p, r, "R-M", "C08", "panos", []string{".needed", ".nameOnDevice"}, 14)
 	ruleMarkDiscipline(p, r, "R-M", "C08", "nsx", []string{".needed", ".nameOnDevice"}, 6)
+	ruleMarkDiscipline(p, r, "R-M", "C08", "cisco", []string{"cmd.needed", "cmd.ready", "cmd.toDelete"}, 18)
 	r.Trusted = []string{"go/ssa, call graph", "audited guard sets in tables/guards.tsv"}
 	r.NotDec = "referential validity of a concrete script; line-number arithmetic beyond the agreement of the constants; duplicate ACL entries"
 }
